@@ -57,6 +57,12 @@ C. Re-statements that add no fact.
 (9) row store `a[i, :] = v` of a 1-D array value into a 2-D array, ONLY inside the contracts listed in
     ROW_LEN = {contract key: n}: obligations  a.shape[1] == n  and  len(v) == n, then the n element stores
     a[i, 0] = v[0], ..., a[i, n-1] = v[n-1]  (the engine's own reading stores the array term v as ONE element).
+(11) a loop invariant may mention a local that is first assigned INSIDE the loop and is declared in the loop's `types`
+    (`furthest_grid_2d_slim_index_from`: the result variable).  Where the invariant is evaluated in a state in which that
+    local is still unbound (initialisation), it is bound to a fresh arbitrary value of the declared type: the obligation
+    then demands the invariant for EVERY value of the unbound local, which is stronger than needed.  (The engine already
+    treats a declared local as bound at the loop head and after the loop; that the local is really assigned before the
+    function reads it follows here from `n >= 1` and the invariant, which pins its value from the first iteration on.)
 (10) (drops an axiom, adds none) the obligations of the contracts listed in NO_ARRAY_EXT are sent to z3 with
     `smt.array.extensional=false`.  The engine models a 2-D array as an array of rows, so every 1-D temporary of a
     vectorised function has the sort of an array ELEMENT and z3 instantiates the extensionality axiom for every pair
@@ -495,38 +501,46 @@ if not getattr(verify, "_c18_noext", False):
         _current["key"] = getattr(E.c, "key", None)
         return _orig_all_axioms(E, proven_lemmas, internal_for=internal_for)
 
-    def _solve(hyps, goal, timeout_ms, ematch_only=False):
+    def _solve(hyps, goal, *args, **kwargs):
+        """the engine's own _solve (whatever its current options are), with array extensionality switched off for the
+        solver it creates: the global z3 parameter is set only around the call and restored afterwards"""
         if _current["key"] not in NO_ARRAY_EXT:
-            return _orig_solve(hyps, goal, timeout_ms, ematch_only=ematch_only)
-        tr = os.environ.get("C18_TRACE")
-        tracing = bool(tr) and tr in str(goal)[:300] and ematch_only
-        if tracing:
-            z3.set_param("trace", True)
-            z3.set_param("trace_file_name", "/var/tmp/z3trace.log")
-        s = z3.Solver()
-        s.set("timeout", timeout_ms)
-        s.set("smt.array.extensional", False)
-        if ematch_only:
-            if os.environ.get("VERIF_AC", "1") == "0":
-                s.set("auto_config", False)
-            s.set("smt.mbqi", False)
-        for h in hyps:
-            s.add(h)
-        s.add(z3.Not(goal))
-        r = s.check()
-        if tracing:
-            z3.set_param("trace", False)
+            return _orig_solve(hyps, goal, *args, **kwargs)
+        z3.set_param("smt.array.extensional", False)
+        try:
+            s, r = _orig_solve(hyps, goal, *args, **kwargs)
+        finally:
+            z3.set_param("smt.array.extensional", True)
         if os.environ.get("C18_STATS"):
             st_ = s.statistics()
             d = {k: st_.get_key_value(k) for k in st_.keys()}
             if d.get("time", 0) > float(os.environ["C18_STATS"]):
-                print("C18_STATS", r, "ematch" if ematch_only else "mbqi", {k: d.get(k) for k in (
-                    "time", "quant instantiations", "max generation", "final checks", "array splits", "decisions", "conflicts",
-                    "arith-conflicts", "added eqs", "mk bool var", "arith-make-feasible", "arith-bound-propagations-lp")},
+                print("C18_STATS", r, args, kwargs, {k: d.get(k) for k in (
+                    "time", "quant instantiations", "max generation", "final checks", "array splits", "decisions", "conflicts")},
                     str(goal)[:100].replace("\n", " "), flush=True)
-                open("/var/tmp/slow_%d.smt2" % int(d.get("time", 0) * 1000), "w").write(s.to_smt2())
         return s, r
 
     verify.all_axioms = _all_axioms
     verify._solve = _solve
     verify._c18_noext = True
+
+
+# ---- (11) invariants over locals first assigned inside the loop
+from pyvc import loops  # noqa: E402
+from pyvc.engine import State  # noqa: E402
+
+if not getattr(loops, "_c18_eval_invs", False):
+    _orig_eval_invs = loops.eval_invs
+
+    def _eval_invs(E, sp, st):
+        declared = sp.get("types", {}) or {}
+        missing = [nm for nm in declared if nm not in st.env]
+        if not missing:
+            return _orig_eval_invs(E, sp, st)
+        st2 = State(dict(st.env), st.heap, st.pc)
+        for nm in missing:
+            st2.env[nm] = loops.havoc_value(E, nm, None, st2, declared[nm])
+        return _orig_eval_invs(E, sp, st2)
+
+    loops.eval_invs = _eval_invs
+    loops._c18_eval_invs = True
